@@ -45,12 +45,16 @@ FIELD_NAMES = [n for n in FIELD_NAMES if n not in RESERVED and not keyword.iskey
 
 TYPE_WORDS = ["Item", "Npc", "NPC", "Coords", "Big", "Thing", "Info", "Map", "Char", "Stats", "Spell",
               "Type", "Reply", "File", "Warp", "Skill", "Shop", "Trade", "Entry", "Row", "A", "B2",
-              "HTTP", "Id", "Pair", "Tile", "Spec", "Gfx", "Rec", "Emf", "Eif", "Level", "Guild"]
+              "HTTP", "Id", "Pair", "Tile", "Spec", "Gfx", "Rec", "Emf", "Eif", "Level", "Guild",
+              # words that coincide with package / directory names of the static half: as prefixes they
+              # exercise relative-import computation, alone they exercise attribute shadowing
+              "Data", "Encrypt", "Protocol", "Client", "Server", "Net", "Pub", "Packet"]
+# a type whose module name equals a subdirectory of its own directory cannot exist on disk
+SUBDIRS = {"": {"net", "map", "pub"}, "net": {"client", "server"}, "pub": {"server"}}
 # type names that would collide with names the static package or generated modules use
 BAD_TYPE_NAMES = {"Packet", "PacketFamily", "PacketAction", "EoReader", "EoWriter", "Optional", "Union",
-                  "Iterable", "IntEnum", "ProtocolEnumMeta", "SerializationError", "Client", "Server",
-                  "Net", "Map", "Pub", "Data", "Encrypt", "Protocol", "SequenceStart", "PacketSequencer",
-                  }
+                  "Iterable", "IntEnum", "ProtocolEnumMeta", "SerializationError", "SequenceStart",
+                  "PacketSequencer"}
 MEMBER_WORDS = ["Red", "Green", "Blue", "None", "Ok", "Busy", "Full", "North", "South", "Admin", "Hgm",
                 "Init", "Go", "Take", "Use", "Open", "Close", "Ping", "Pong", "Msg", "Walk", "Face",
                 "Add", "Remove", "Agree", "Player", "NPC", "Item2", "Spec", "Reply", "Accept", "Error"]
@@ -127,8 +131,8 @@ class _Gen:
                 sn = spec.pascal_to_snake(cand)
                 bad = (cand in self.type_names or cand in BAD_TYPE_NAMES or keyword.iskeyword(sn)
                        or any(sn in s for s in self.snake_by_dir.values())
-                       or sn in ("client", "server", "net", "map", "pub", "packet", "data", "protocol",
-                                 "serialization_error", "protocol_enum_meta")
+                       or sn in SUBDIRS.get(dir_, ())
+                       or sn in ("packet", "serialization_error", "protocol_enum_meta")
                        or cand.endswith(("ClientPacket", "ServerPacket")))
                 if not bad:
                     break
